@@ -36,6 +36,7 @@ def main(argv=None):
     ap.add_argument("--replay")
     ap.add_argument("--limit", type=int, default=0, help="debug: only the first N cases")
     ap.add_argument("--only", help="debug: only this case id")
+    ap.add_argument("--grep", help="debug: only case ids matching this regex")
     args = ap.parse_args(argv)
     common.ensure_deps()
     mod = importlib.import_module("vf.checks." + args.id.lower())
@@ -51,6 +52,10 @@ def main(argv=None):
         c.setdefault("seed", seed)
     if args.only:
         cases = [c for c in cases if c["id"] == args.only]
+    if args.grep:
+        import re
+
+        cases = [c for c in cases if re.search(args.grep, c["id"])]
     if args.limit:
         cases = cases[: args.limit]
     timeout = getattr(mod, "TIMEOUT", {"quick": 1500, "thorough": 6 * 3600})[tier]
